@@ -5,6 +5,7 @@ import (
 	"errors"
 	"time"
 
+	"go.etcd.io/etcd/api/v3/etcdserverpb"
 	"go.etcd.io/etcd/api/v3/mvccpb"
 	clientv3 "go.etcd.io/etcd/client/v3"
 )
@@ -66,6 +67,7 @@ func vPut(k, v string) {
 	vStoreKV[k] = v
 	vStoreRev[k] = vRevision
 	vStoreVer[k]++
+	vRecordHistory()
 }
 
 func vDel(k string) {
@@ -76,33 +78,90 @@ func vDel(k string) {
 	delete(vStoreRev, k)
 	delete(vStoreVer, k)
 	delete(vStoreCreate, k)
+	vRecordHistory()
 }
 
 func vKV(k, v string) *mvccpb.KeyValue {
 	return &mvccpb.KeyValue{Key: []byte(k), Value: vBytes(v), ModRevision: vStoreRev[k], Version: vStoreVer[k], CreateRevision: vStoreCreate[k]}
 }
 
-func vGetRawPrefix(c *cluster, prefix string) (map[string]*mvccpb.KeyValue, error) {
-	if vPullFails {
-		return nil, errors.New("etcd server unavailable")
-	}
-	out := map[string]*mvccpb.KeyValue{}
-	for k, v := range vStoreKV {
-		if vHasPrefix(k, prefix) {
-			out[k] = vKV(k, v)
-		}
-	}
-	return out, nil
+// ---- the etcd client's key-value API over the harness store -------------------------------
+// The REAL cluster.GetRaw / GetRawPrefix run; what they call - clientv3's KV.Get - answers from
+// the harness store, honouring the options the real clientv3.OpGet computes (prefix range end,
+// revision). Reads at a revision are served from the history of the store.
+type vKVSnap struct {
+	val                 string
+	mod, ver, createRev int64
 }
 
-func vGetRaw(c *cluster, key string) (*mvccpb.KeyValue, error) {
+var vHistory = map[int64]map[string]vKVSnap{} // store content after each revision
+
+func vRecordHistory() {
+	snap := map[string]vKVSnap{}
+	for k, v := range vStoreKV {
+		snap[k] = vKVSnap{v, vStoreRev[k], vStoreVer[k], vStoreCreate[k]}
+	}
+	vHistory[vRevision] = snap
+}
+
+type vEtcdKV struct{}
+
+func (vEtcdKV) Get(ctx context.Context, key string, opts ...clientv3.OpOption) (*clientv3.GetResponse, error) {
 	if vPullFails {
 		return nil, errors.New("etcd server unavailable")
 	}
-	if v, ok := vStoreKV[key]; ok {
-		return vKV(key, v), nil
+	op := clientv3.OpGet(key, opts...)
+	lo, hi := string(op.KeyBytes()), string(op.RangeBytes())
+	content := map[string]vKVSnap{}
+	if rev := op.Rev(); rev > 0 && rev < vRevision {
+		r := rev
+		for r > 0 {
+			if h, ok := vHistory[r]; ok {
+				content = h
+				break
+			}
+			r--
+		}
+	} else {
+		for k, v := range vStoreKV {
+			content[k] = vKVSnap{v, vStoreRev[k], vStoreVer[k], vStoreCreate[k]}
+		}
 	}
-	return nil, nil
+	resp := &clientv3.GetResponse{Header: &etcdserverpb.ResponseHeader{Revision: vRevision}}
+	for k, e := range content {
+		in := k == lo
+		if hi != "" {
+			in = k >= lo && k < hi
+		}
+		if in {
+			resp.Kvs = append(resp.Kvs, &mvccpb.KeyValue{Key: []byte(k), Value: vBytes(e.val), ModRevision: e.mod, Version: e.ver, CreateRevision: e.createRev})
+		}
+	}
+	resp.Count = int64(len(resp.Kvs))
+	return resp, nil
+}
+func (vEtcdKV) Put(ctx context.Context, key, val string, opts ...clientv3.OpOption) (*clientv3.PutResponse, error) {
+	panic("harness KV: Put is not used by the syncer")
+}
+func (vEtcdKV) Delete(ctx context.Context, key string, opts ...clientv3.OpOption) (*clientv3.DeleteResponse, error) {
+	panic("harness KV: Delete is not used by the syncer")
+}
+func (vEtcdKV) Compact(ctx context.Context, rev int64, opts ...clientv3.CompactOption) (*clientv3.CompactResponse, error) {
+	panic("harness KV: Compact is not used by the syncer")
+}
+func (vEtcdKV) Do(ctx context.Context, op clientv3.Op) (clientv3.OpResponse, error) {
+	panic("harness KV: Do is not used by the syncer")
+}
+func (vEtcdKV) Txn(ctx context.Context) clientv3.Txn {
+	panic("harness KV: Txn is not used by the syncer")
+}
+
+func vRequestContext(c *cluster) (context.Context, context.CancelFunc) {
+	return context.Background(), func() {}
+}
+
+func vCluster() *cluster {
+	return &cluster{client: &clientv3.Client{KV: vEtcdKV{}}, requestTimeout: time.Second}
 }
 
 func vNewTicker(d time.Duration) *time.Ticker { return &time.Ticker{C: vTickCh} }
@@ -131,11 +190,13 @@ func vSameMap(a, b map[string]string) bool {
 }
 
 func verifC19_SyncPrefix() {
-	const prefix = "/p/"
-	keys := []string{"/p/a", "/p/b", "/q/x"}
+	// the watched prefix, written with or without a trailing separator: "/p" also covers "/pb"
+	prefix := []string{"/p/", "/p"}[verifChoose("prefixText", 2)]
+	keys := []string{"/p/a", "/p/b", "/pb"}
 	vals := []string{"v1", "v2"}
 	vStoreKV, vStoreRev, vRevision = map[string]string{}, map[string]int64{}, 1
 	vStoreVer, vStoreCreate = map[string]int64{}, map[string]int64{}
+	vHistory = map[int64]map[string]vKVSnap{}
 	// the store starts empty, with one key or with two keys under the prefix
 	if n := verifChoose("initialKeysUnderThePrefix", 3); n >= 1 {
 		vPut("/p/a", "v1")
@@ -151,7 +212,7 @@ func verifC19_SyncPrefix() {
 	history[0] = vSnapshot(prefix)
 	nh := 1
 
-	s := &syncer{cluster: &cluster{}, pullInterval: time.Second, done: make(chan struct{})}
+	s := &syncer{cluster: vCluster(), pullInterval: time.Second, done: make(chan struct{})}
 	verifInitMaps(s) // maps a bypassed constructor would have made
 	ch, _ := s.SyncPrefix(prefix)
 
@@ -175,7 +236,7 @@ func verifC19_SyncPrefix() {
 		nh++
 		switch verifChoose("write.announcement", 4) {
 		case 0: // the watch delivers the event
-			vWatchCh <- clientv3.WatchResponse{}
+			vWatchCh <- clientv3.WatchResponse{Header: etcdserverpb.ResponseHeader{Revision: vRevision}, Events: []*clientv3.Event{{}}}
 		case 1: // the event is lost (server restarted, watch broken silently)
 			verifCover("lost-event")
 		case 2: // the watch is cancelled: the syncer must re-create it
@@ -184,7 +245,7 @@ func verifC19_SyncPrefix() {
 			verifCover("cancelled-watch")
 		case 3: // the server is down for a while: a pull fails, then it is back
 			vPullFails = true
-			vWatchCh <- clientv3.WatchResponse{}
+			vWatchCh <- clientv3.WatchResponse{Header: etcdserverpb.ResponseHeader{Revision: vRevision}, Events: []*clientv3.Event{{}}}
 			verifQuiesce()
 			vPullFails = false
 			verifCover("failed-pull")
@@ -266,10 +327,11 @@ func verifC19_SyncKey() {
 	vals := []string{"v1", ""} // the empty string is a value like any other (absent is "<absent>")
 	vStoreKV, vStoreRev, vRevision = map[string]string{}, map[string]int64{}, 1
 	vStoreVer, vStoreCreate = map[string]int64{}, map[string]int64{}
+	vHistory = map[int64]map[string]vKVSnap{}
 	vWatchCh = make(chan clientv3.WatchResponse, 8)
 	vTickCh = make(chan time.Time, 8)
 	vPullFails, vWatchCount = false, 0
-	s := &syncer{cluster: &cluster{}, pullInterval: time.Second, done: make(chan struct{})}
+	s := &syncer{cluster: vCluster(), pullInterval: time.Second, done: make(chan struct{})}
 	verifInitMaps(s) // maps a bypassed constructor would have made
 	ch, _ := s.Sync(key)
 	verifQuiesce()
@@ -304,7 +366,7 @@ func verifC19_SyncKey() {
 		history[nh] = cur
 		nh++
 		if k == key && verifBool("write.announced") {
-			vWatchCh <- clientv3.WatchResponse{Events: []*clientv3.Event{ev}}
+			vWatchCh <- clientv3.WatchResponse{Header: etcdserverpb.ResponseHeader{Revision: vRevision}, Events: []*clientv3.Event{ev}}
 		} else if k != key {
 			verifCover("write-to-another-key")
 		}
@@ -377,10 +439,11 @@ func verifC19_SlowConsumer() {
 	const prefix = "/p/"
 	vStoreKV, vStoreRev, vRevision = map[string]string{}, map[string]int64{}, 1
 	vStoreVer, vStoreCreate = map[string]int64{}, map[string]int64{}
+	vHistory = map[int64]map[string]vKVSnap{}
 	vWatchCh = make(chan clientv3.WatchResponse, 32)
 	vTickCh = make(chan time.Time, 8)
 	vPullFails, vWatchCount = false, 0
-	s := &syncer{cluster: &cluster{}, pullInterval: time.Second, done: make(chan struct{})}
+	s := &syncer{cluster: vCluster(), pullInterval: time.Second, done: make(chan struct{})}
 	verifInitMaps(s) // maps a bypassed constructor would have made
 	ch, _ := s.SyncPrefix(prefix)
 	// more writes than the channel capacity; the consumer reads a few snapshots, then stalls
@@ -397,8 +460,8 @@ func verifC19_SlowConsumer() {
 		}
 		final = vals[i%3]
 		vPut("/p/a", final)
-		vWatchCh <- clientv3.WatchResponse{} // every write is announced
-		verifQuiesce()                        // and the syncer gets time to pull (or blocks on the full channel)
+		vWatchCh <- clientv3.WatchResponse{Header: etcdserverpb.ResponseHeader{Revision: vRevision}, Events: []*clientv3.Event{{}}} // every write is announced
+		verifQuiesce()                       // and the syncer gets time to pull (or blocks on the full channel)
 	}
 	// the consumer wakes up and drains, giving the syncer time after every receive
 	last := ""
